@@ -170,8 +170,9 @@ def discrete(prog, ctx):
     rets = return_cases(outs)
     pos = (sp.Ge(gq, 0), sp.Le(0, gq), sp.Gt(gq, 0), sp.Lt(0, gq))
     neg = (sp.Lt(gq, 0), sp.Gt(0, gq), sp.Le(gq, 0), sp.Ge(0, gq))
-    ok = len(rets) == 2 and any(v_ == gq and any(a_ in pos for a_ in cond_atoms(c_)) for c_, v_ in rets) \
-        and any(v_ == 0 and any(a_ in neg for a_ in cond_atoms(c_)) for c_, v_ in rets)
+    ok = (len(rets) == 2 and any(v_ == gq and any(a_ in pos for a_ in cond_atoms(c_)) for c_, v_ in rets)
+          and any(v_ == 0 and any(a_ in neg for a_ in cond_atoms(c_)) for c_, v_ in rets)) or \
+         (len(rets) == 1 and rets[0][1] == sp.Max(0, gq))
     ctx.decide(R, 'CDF_Poisson', fn, ok, 'max(GammaQ(mu, n+1), 0)', 'CDF_Poisson returns %s' % [(str(c_)[-60:], str(v_)) for c_, v_ in rets])
     fn, sx, outs = paths(prog, 'Inv_CDF_Poisson')
     nn, c = sx.symbol(fn.params[0]['name'], 'unsigned int'), sx.symbol(fn.params[1]['name'], 'double')
